@@ -98,7 +98,7 @@ def fixed1616_lattice():
 
 class Fixed1616(Unit):
     name = "fixed16.16"
-    rule = "16.16 values: all with |integer part| <= 2 (2^18+1 values), +-64 around +-2^k for k<32, 65 values at each end of the int32 range: float/str round trips and T2 encodeFixed -> read_fixed1616/int readers; distinct = each value"
+    rule = "16.16 values: all with |integer part| <= 2 (2^18+1 values), +-64 around +-2^k for k<32, 65 values at each end of the int32 range: float/str round trips and T2 encodeFixed -> read_fixed1616/int readers, plus floats a quarter step / 2^-40 off the grid next to integers and half steps (nearest grid value must be written); distinct = each value"
     chunk = 1
 
     def setup(self, tier, seed):
@@ -123,6 +123,21 @@ class Fixed1616(Unit):
             got = decode_operand(psCharStrings.t2OperandEncoding, code)
             if got is None or got[0] != f or got[1] != len(code):
                 rec.violation("fixed16:encodeFixed", "encodeFixed(%r)=%s decodes to %r" % (f, code.hex(), got), case=v)
+            # floats OFF the 16.16 grid, a quarter of a step / 2^-40 away from grid values next to the
+            # integers and the half steps: the operand written is the NEAREST grid value
+            if (v & 0xFFFF) in (0, 1, 0x7FFF, 0x8000, 0xFFFF) and abs(v) < (1 << 30):
+                for d in (2.0 ** -18, -(2.0 ** -18), 2.0 ** -40, -(2.0 ** -40)):
+                    f2 = f + d
+                    if f2 == f:
+                        continue
+                    import math
+
+                    want = math.floor(f2 * 65536 + 0.5) / 65536
+                    code = psCharStrings.encodeFixed(f2)
+                    got = decode_operand(psCharStrings.t2OperandEncoding, code)
+                    rec.witness("off-grid float")
+                    if got is None or got[0] != want or got[1] != len(code):
+                        rec.violation("fixed16:encodeFixed:off-grid", "encodeFixed(%r)=%s decodes to %r, nearest 16.16 value is %r" % (f2, code.hex(), got, want), case=v)
             if v & 0xFFFF == 0:
                 rec.witness("integral 16.16 encoded as int")
             else:
